@@ -478,7 +478,11 @@ impl<'a> G<'a> {
         self.msg_id += 1;
         let id = self.msg_id;
         let m = self.m();
-        match self.rng.below(8) {
+        match self.rng.below(9) {
+            8 => {
+                // the same warning twice in one line: two calls of a function that reads a skipped temporary
+                self.line(indent, &format!("{m} dsite d{id} {{fdw_{id}()}} and {{fdw_{id}()}} after"));
+            }
             7 if !self.ints.is_empty() => {
                 // a warning raised by a statement that prints nothing, right after a line end: it runs in the
                 // look-ahead of the line before it, which is kept (end, choices, glue) or rewound (more text)
@@ -556,7 +560,14 @@ impl<'a> G<'a> {
             // both named and part of its parent's content
             self.line(0, &format!("- (xg{sid})"));
         }
-        match self.rng.below(8) {
+        match self.rng.below(9) {
+            8 => {
+                // the call is the very first thing on a line that follows a finished line
+                if let Some((c, w)) = self.ext_call(false, sid) {
+                    self.line(indent, &format!("{m} pre{sid} line"));
+                    self.line(indent, &format!("{{{c}}} lead{sid} x={{{w}}} want={w}; post{sid}"));
+                }
+            }
             0 => {
                 if let Some((c, _)) = self.ext_call(false, sid) {
                     self.line(indent, &format!("{m} pre{sid} line"));
@@ -1241,6 +1252,7 @@ pub fn render(rng: &mut Rng, cfg: &GenCfg) -> String {
     let mut tail = String::new();
     for id in 1..=g.msg_id {
         tail.push_str(&format!("=== function fv_{id}() ===\n~ temp unused_{id} = 0\n\n"));
+        tail.push_str(&format!("=== function fdw_{id}() ===\n{{ zero_{id} == 1:\n    ~ temp ud_{id} = 5\n}}\n~ return ud_{id}\n\n"));
     }
     format!("{extra}{}{tail}", g.out)
 }
